@@ -318,10 +318,6 @@ class Engine:
         return r
 
     def branch(self, expr: Any, label: str = "") -> bool:
-        if z3.is_true(expr):
-            return True
-        if z3.is_false(expr):
-            return False
         key = expr.get_id()
         hit = self._decided.get(key)
         if hit is not None:
